@@ -310,6 +310,10 @@ pub struct Contract {
     pub finished: bool,
     /// a finish attempt failed (sink error): the object is dead but not "finished" in the model
     pub failed_finish: bool,
+    /// configured width or height does not fit the 16-bit fields of the sample entry: finish is
+    /// then refused (C16), which C04's list of preconditions does not mention - either outcome of
+    /// that finish call is accepted, and the muxer counts as finished afterwards in both cases
+    pub oversized: bool,
     pub accepted_video: u64,
     pub accepted_audio: u64,
     pub first_video_pts: Option<f64>,
@@ -340,6 +344,7 @@ impl Contract {
             audio_rate: cfg.audio.as_ref().map(|a| a.rate).unwrap_or(0),
             finished: false,
             failed_finish: false,
+            oversized: cfg.width > 65535 || cfg.height > 65535,
             accepted_video: 0,
             accepted_audio: 0,
             first_video_pts: None,
@@ -369,7 +374,7 @@ impl Contract {
 
     fn video(&self, pts: f64, dts: f64, via_write_video: bool, data: &[u8], key: bool) -> Verdict {
         let mut v = vec![];
-        if self.finished {
+        if self.finished || self.failed_finish {
             v.push(Viol::Finished);
         }
         if data.is_empty() {
@@ -422,7 +427,7 @@ impl Contract {
     fn audio_call(&self, pts: f64, data: &[u8]) -> Verdict {
         let mut v = vec![];
         let mut either = false;
-        if self.finished {
+        if self.finished || self.failed_finish {
             v.push(Viol::Finished);
         }
         if self.audio.is_none() {
@@ -494,8 +499,12 @@ impl Contract {
                 let mut v = vec![];
                 if self.finished || self.failed_finish {
                     v.push(Viol::Finished);
+                    Verdict { viol: v, either: false }
+                } else if self.oversized {
+                    Verdict { viol: vec![Viol::Io], either: true }
+                } else {
+                    Verdict { viol: v, either: false }
                 }
-                Verdict { viol: v, either: false }
             }
         }
     }
